@@ -485,10 +485,24 @@ pub mod simfs {
 
     pub struct ReadDir {
         entries: std::vec::IntoIter<DirEntry>,
+        yielded: u64,
     }
     impl Iterator for ReadDir {
         type Item = io::Result<DirEntry>;
         fn next(&mut self) -> Option<Self::Item> {
+            let idx = self.yielded;
+            self.yielded += 1;
+            let fault = world::with(|w| match w.hard {
+                Some(h) if h.kind == world::HardKind::DirEntryErr && h.at == idx && !w.hard_fired => {
+                    w.hard_fired = true;
+                    w.event("hard_fault", h.kind as u64, idx);
+                    true
+                }
+                _ => false,
+            });
+            if fault {
+                return Some(Err(io::Error::new(io::ErrorKind::Other, "simulated EIO while listing")));
+            }
             self.entries.next().map(Ok)
         }
     }
@@ -542,8 +556,20 @@ pub mod simfs {
                     .push((label.clone(), entries.iter().map(|e| e.name.clone()).collect()));
             }
         });
+        let fail = world::with(|w| match w.hard {
+            Some(h) if h.kind == world::HardKind::ReadDirErr && !w.hard_fired => {
+                w.hard_fired = true;
+                w.event("hard_fault", h.kind as u64, 0);
+                true
+            }
+            _ => false,
+        });
+        if fail {
+            return Err(io::Error::new(io::ErrorKind::PermissionDenied, "simulated EACCES on read_dir"));
+        }
         Ok(ReadDir {
             entries: entries.into_iter(),
+            yielded: 0,
         })
     }
 
@@ -574,14 +600,53 @@ pub mod simfs {
 
     pub fn read<P: AsRef<Path>>(p: P) -> io::Result<Vec<u8>> {
         let (k, d) = fetch(p.as_ref())?;
+        // non-gating fault exploration: the planned read misbehaves
+        let fault = world::with(|w| {
+            let idx = w.reads_seen;
+            w.reads_seen += 1;
+            match w.hard {
+                Some(h) if h.at == idx && !w.hard_fired => match h.kind {
+                    world::HardKind::ReadEio
+                    | world::HardKind::ReadEnoent
+                    | world::HardKind::Truncated
+                    | world::HardKind::BitFlip => {
+                        w.hard_fired = true;
+                        w.event("hard_fault", h.kind as u64, idx);
+                        Some(h)
+                    }
+                    _ => None,
+                },
+                _ => None,
+            }
+        });
+        let mut data = (*d).clone();
+        if let Some(h) = fault {
+            match h.kind {
+                world::HardKind::ReadEio => return Err(io::Error::new(io::ErrorKind::Other, "simulated EIO")),
+                world::HardKind::ReadEnoent => {
+                    return Err(io::Error::new(io::ErrorKind::NotFound, "simulated ENOENT"))
+                }
+                world::HardKind::Truncated => {
+                    let n = if data.is_empty() { 0 } else { (h.salt % data.len() as u64) as usize };
+                    data.truncate(n);
+                }
+                world::HardKind::BitFlip => {
+                    if !data.is_empty() {
+                        let i = (h.salt % data.len() as u64) as usize;
+                        data[i] ^= 1 << ((h.salt >> 32) % 8);
+                    }
+                }
+                _ => {}
+            }
+        }
         world::with(|w| {
             w.stats.whole_file_reads += 1;
-            w.stats.bytes_read += d.len() as u64;
+            w.stats.bytes_read += data.len() as u64;
             let mut pd = Fnv::default();
             pd.str(&k);
-            w.event("read", pd.0, d.len() as u64);
+            w.event("read", pd.0, data.len() as u64);
         });
-        Ok((*d).clone())
+        Ok(data)
     }
 
     pub fn read_to_string<P: AsRef<Path>>(p: P) -> io::Result<String> {
